@@ -16,6 +16,8 @@
 **                              missing: too few arguments;  ladder: chunks of exactly N output
 **                              characters for every N in 1..n (n=300) and around powers of two up to pmax, three sinks, follow-up print
 **                              repeat: argument lists holding the same object several times;
+**                              reentrant: arguments whose c_str/c_int/c_float/show themselves print_to;
+**                              history: k caught formatting failures, then well-formed formattings;
 **                              recycle: sinks created and destroyed per formatting, alternating types
 **   conv=<letters>             conversions handled by this instance (from "diuoxXcsfFeEgGaAp$")
 **   grid=full|mid|small        full: width {none,1,5,12} x precision {none,.0,.3,.10}, all values,
@@ -1183,8 +1185,8 @@ static void recycle_mode(void) {
       { void* t[7]; size_t sz = sizeof(struct Header) + sizeof(struct File);
         for (int i = 0; i < 7; i++) t[i] = malloc(sz);
         for (int i = 0; i < 7; i++) free(t[i]); }
-      void* prev_addr = NULL; int prev_kind = 3;
-      for (int step = 0; step < 3; step++) {
+      void* volatile prev_addr = NULL; volatile int prev_kind = 3;
+      for (volatile int step = 0; step < 3; step++) {
         volatile int kd = kinds[step], fi = (rot + step) % NRFMT, st = (step + rot) & 1 ? PLEN : 0;
         vf_watchdog(60);
         vf_set_cur("recycle seq=%d rot=%d | sinks %s, %s, %s; at step %d: %s after %s, format \"%s\" at %d",
@@ -1254,6 +1256,239 @@ static void recycle_mode(void) {
   if (reused_other_type == 0) vf_note("the allocator of this build never handed a released sink's address to a sink of the other type (quarantine): the stale-address situation was not reached here");
 }
 
+/* ---- user types for the history and re-entrancy families --------------------------------------- */
+
+/* Thrower: a type whose Show refuses (raises) */
+struct Thrower { int64_t n; };
+static int Thrower_Show(var self, var out, int pos) {
+  throw(ValueError, "Thrower %i refuses to be shown", $I(((struct Thrower*)self)->n));
+  return pos;
+}
+var Thrower = Cello(Thrower, Instance(Show, Thrower_Show, NULL));
+
+/* Reent: every accessor print_to uses on an argument itself formats (with a different short format)
+** into the object's private heap String before it answers */
+struct Reent { int64_t n; double x; var priv; };
+static char* Reent_C_Str(var self) {
+  struct Reent* r = self;
+  print_to(r->priv, 0, "label-%li", $I(r->n));
+  return c_str(r->priv);
+}
+static int64_t Reent_C_Int(var self) {
+  struct Reent* r = self;
+  print_to(r->priv, 0, "int:%d!", $I(r->n));
+  return r->n;
+}
+static double Reent_C_Float(var self) {
+  struct Reent* r = self;
+  print_to(r->priv, 0, "%5.2f flt", $F(r->x));
+  return r->x;
+}
+static int Reent_Show(var self, var out, int pos) {
+  struct Reent* r = self;
+  print_to(r->priv, 0, "<R %li/%s>", $I(r->n), $S("tag"));
+  return print_to(out, pos, "%s", r->priv);
+}
+var Reent = Cello(Reent,
+  Instance(C_Str, Reent_C_Str), Instance(C_Int, Reent_C_Int), Instance(C_Float, Reent_C_Float),
+  Instance(Show, Reent_Show, NULL));
+
+/* ---- re-entrant formatting -------------------------------------------------------------------------
+** %s / %li-style / %f-style / %$ of Reent objects in single- and two-directive formats, both sinks,
+** two starts; the expected text is assembled from snprintf of the parts.
+*/
+
+#define NRSPEC 10
+static const char* RSPEC[NRSPEC] = { "%s", "%-12s", "%.3s", "%li", "%08li", "%+d", "%f", "%5.2f", "%.1e", "%$" };
+static const int   RACC[NRSPEC]  = { 0, 0, 0, 1, 1, 1, 2, 2, 2, 3 };
+static const char* RACCN[4] = { "c_str", "c_int", "c_float", "show" };
+static int R_a = -1, R_b = -2, R_obj = -1;
+
+static size_t reent_piece(char* out, size_t cap, int sp, int64_t n, double x) {
+  char lab[64];
+  switch (RACC[sp]) {
+  case 0: snprintf(lab, sizeof lab, "label-%li", (long)n); return (size_t)snprintf(out, cap, RSPEC[sp], lab);
+  case 1: return sp == 5 ? (size_t)snprintf(out, cap, RSPEC[sp], (int)n) : (size_t)snprintf(out, cap, RSPEC[sp], (long)n);
+  case 2: return (size_t)snprintf(out, cap, RSPEC[sp], x);
+  default: return (size_t)snprintf(out, cap, "<R %li/tag>", (long)n);
+  }
+}
+
+static void reentrant_mode(void) {
+  var r1 = $(Reent, 7, 1.25, new_raw(String));
+  var r2 = $(Reent, -8, 2.5, new_raw(String));
+  var t1 = tuple(r1), t12 = tuple(r1, r2), t11 = tuple(r1, r1);
+  for (int a = 0; a < NRSPEC; a++) {
+    if (R_on && R_a >= 0 && a != R_a) continue;
+    for (int b = -1; b < NRSPEC; b++) {                 /* b = -1: one directive only */
+      if (R_on && R_b >= -1 && b != R_b) continue;
+      for (int ob = 0; ob < (b < 0 ? 2 : 2); ob++) {     /* single: plain / bracketed; pair: (r1,r2) / (r1,r1) */
+        if (R_on && R_obj >= 0 && ob != R_obj) continue;
+        size_t eo = 0;
+        var args;
+        if (b < 0) {
+          sprintf(FMT, ob ? "[%s]" : "%s", RSPEC[a]);
+          if (ob) EXP[eo++] = '[';
+          eo += reent_piece(EXP + eo, sizeof EXP - eo, a, 7, 1.25);
+          if (ob) EXP[eo++] = ']';
+          args = t1;
+        } else {
+          sprintf(FMT, "x=%s; y=%s.", RSPEC[a], RSPEC[b]);
+          eo += sprintf(EXP + eo, "x=");
+          eo += reent_piece(EXP + eo, sizeof EXP - eo, a, 7, 1.25);
+          eo += sprintf(EXP + eo, "; y=");
+          eo += ob ? reent_piece(EXP + eo, sizeof EXP - eo, b, 7, 1.25) : reent_piece(EXP + eo, sizeof EXP - eo, b, -8, 2.5);
+          EXP[eo++] = '.';
+          args = ob ? t11 : t12;
+        }
+        EXP[eo] = 0;
+        size_t explen = eo, fl = strlen(FMT);
+        char* fmt = malloc(fl + 1); memcpy(fmt, FMT, fl + 1);
+        vf_watchdog(60);
+        vf_set_cur("reentrant a=%d b=%d obj=%d | format \"%s\" on %s", a, b, ob, FMT, b < 0 ? "(r1)" : ob ? "(r1,r1)" : "(r1,r2)");
+        if (count_nt) vf.nontrivial++;
+        for (int si = 0; si < 2; si++) {
+          if (R_on && R_s >= 0 && si != R_s) continue;
+          for (int k = 0; k < 2; k++) {
+            if (R_on && R_k >= 0 && k != R_k) continue;
+            struct got g; int st = STARTS[si];
+            run_sink(k, st, fmt, args, &g);
+            vf.evaluations++;
+            const char* sym = NULL; char symb[64];
+            if (g.exc) { snprintf(symb, sizeof symb, "raises-%s", vf_exc_name(g.exc)); sym = symb; }
+            else if (!g.prefix_ok) sym = "prefix-damaged";
+            else if (g.len != explen || memcmp(g.text, EXP, explen) != 0) sym = "text-differs";
+            else if (g.ret != st + (int)explen) sym = "position";
+            if (sym) {
+              char lab[200], cs[600], acc[40];
+              if (b < 0) snprintf(acc, sizeof acc, "%s", RACCN[RACC[a]]); else snprintf(acc, sizeof acc, "%s+%s", RACCN[RACC[a]], RACCN[RACC[b]]);
+              snprintf(lab, sizeof lab, "reentrant/%s/%s/%s", acc, SINKNAME[k], sym);
+              snprintf(cs, sizeof cs, "reentrant a=%d b=%d obj=%d s=%d k=%d | format \"%s\" start %d sink %s", a, b, ob, si, k, FMT, st, SINKNAME[k]);
+              vf_violation(lab, cs, "print_to(%s, %d, \"%s\") with arguments whose %s formats into a private String while answering: wrote '%s', returned %d; the parts give '%s' (position %d)",
+                SINKNAME[k], st, FMT, acc, printable(g.text, g.len), g.ret, printable(EXP, explen), st + (int)explen);
+            }
+            if (vf_want_sample()) vf_sample("print_to(%s, %d, \"%s\", re-entrant objects) == '%s'", SINKNAME[k], st, FMT, printable(EXP, explen));
+          }
+        }
+        free(fmt);
+      }
+    }
+  }
+}
+
+/* ---- failure history -----------------------------------------------------------------------------------
+** k caught (refused) formattings of one kind, then a small grid of well-formed ones on both sinks:
+** they must behave exactly as they did before any failure.  Every (kind, k) case runs in its own
+** forked child, so a case never sees another case's failures and replays alone.
+*/
+
+#define NHKIND 6
+static const char* HKIND[NHKIND] = { "closed-File-sink", "stack-String-sink", "too-few-arguments", "Show-that-throws", "wrong-type-argument", "mixed" };
+static const int HK[8] = { 0, 1, 2, 31, 32, 33, 64, 100 };
+#define NHFMT 10
+static const char* HFMT[NHFMT] = { "%$", "%$", "%$", "%$", "%$", "%d", "%s", "plain literal", "a%%b", "<%$|%d|%s|%$>" };
+static const char* HFMTN[NHFMT] = { "%$-Int", "%$-Float", "%$-String", "%$-Array", "%$-Tuple", "%d", "%s", "literal", "%%", "mixed" };
+static int hpipe[2];
+struct hcase { int kind, k; };
+
+static void hist_grid(var* targs, char texts[][2][2][256], int rets[][2][2], int record, const struct hcase* hc, volatile uint64_t* execs) {
+  for (int f = 0; f < NHFMT; f++) for (int si = 0; si < 2; si++) for (int k = 0; k < 2; k++) {
+    struct got g; int st = STARTS[si];
+    run_sink(k, st, HFMT[f], targs[f], &g);
+    (*execs)++;
+    char now[256]; size_t n = g.len < sizeof now - 1 ? g.len : sizeof now - 1;
+    memcpy(now, g.text, n); now[n] = 0;
+    if (g.exc || !g.prefix_ok) snprintf(now, sizeof now, "(%s)", g.exc ? vf_exc_name(g.exc) : "prefix damaged");
+    if (record) { strcpy(texts[f][si][k], now); rets[f][si][k] = g.ret; continue; }
+    if (strcmp(texts[f][si][k], now) != 0 || rets[f][si][k] != g.ret) {
+      dprintf(hpipe[1], "V\thistory/after-%s/k=%d/%s/%s/%s\tafter %d caught %s failures print_to(%s, %d, \"%s\") wrote '%s' and returned %d; before them the same call wrote '%s' and returned %d\n",
+        HKIND[hc->kind], hc->k, HFMTN[f], SINKNAME[k], strcmp(texts[f][si][k], now) != 0 ? "text-differs-from-first-time" : "position-differs-from-first-time",
+        hc->k, HKIND[hc->kind], SINKNAME[k], st, HFMT[f], printable(now, strlen(now)), g.ret, printable(texts[f][si][k], strlen(texts[f][si][k])), rets[f][si][k]);
+      _exit(3);
+    }
+  }
+}
+
+static void history_child(void* arg) {
+  const struct hcase* hc = arg;
+  static char texts[NHFMT][2][2][256]; static int rets[NHFMT][2][2];
+  volatile uint64_t execs = 0, refused = 0;
+  var I42 = $I(42), F25 = $F(2.5), Shi = $S("hi");
+  var arr = new_raw(Array, Int, $I(1), $I(2), $I(3));
+  var tup = new_raw(Tuple, new_raw(Int, $I(1)), new_raw(String, $S("a")));
+  var targs[NHFMT];
+  targs[0] = tuple(I42); targs[1] = tuple(F25); targs[2] = tuple(Shi); targs[3] = tuple(arr); targs[4] = tuple(tup);
+  targs[5] = tuple(I42); targs[6] = tuple(Shi); targs[7] = tuple(); targs[8] = tuple(); targs[9] = tuple(arr, I42, Shi, F25);
+  /* the first time */
+  hist_grid(targs, texts, rets, 1, hc, &execs);
+  /* the independent reference for the pieces that do not depend on show */
+  if (strcmp(texts[5][0][0], "42") != 0 || strcmp(texts[6][0][0], "hi") != 0 || strcmp(texts[7][0][0], "plain literal") != 0 || strcmp(texts[8][0][0], "a%b") != 0) {
+    dprintf(hpipe[1], "V\thistory/first-time/text-differs\tbefore any failure: %%d of 42 -> '%s', %%s of \"hi\" -> '%s', literal -> '%s', a%%%%b -> '%s'\n", texts[5][0][0], texts[6][0][0], texts[7][0][0], texts[8][0][0]);
+    _exit(3);
+  }
+  /* k refused formattings, each caught */
+  var closedF = $(File, NULL);
+  char stackbuf[32] = "stack";
+  var stackS = $S(stackbuf);
+  var thr = $(Thrower, 5);
+  var lthr = tuple(thr);
+  for (volatile int i = 0; i < hc->k; i++) {
+    int kd = hc->kind == 5 ? i % 5 : hc->kind;
+    var e = NULL;
+    switch (kd) {
+    case 0: e = VF_CATCH(print_to(closedF, 0, "%$", I42)); break;
+    case 1: e = VF_CATCH(print_to(stackS, 0, "%$", I42)); break;
+    case 2: e = VF_CATCH(print_to(SS, 0, "%$ %$", I42)); break;
+    case 3: e = (i & 1) ? VF_CATCH(print_to(SS, 0, "%$", lthr)) : VF_CATCH(print_to(SS, 0, "%$", thr)); break;
+    case 4: e = VF_CATCH(print_to(SS, 0, "%s", I42)); break;
+    }
+    execs++;
+    if (e) refused++;
+  }
+  /* and again */
+  hist_grid(targs, texts, rets, 0, hc, &execs);
+  dprintf(hpipe[1], "OK\t%" PRIu64 "\t%" PRIu64 "\n", execs, refused);
+}
+
+static int R_kind = -1, R_hk = -1;
+
+static void history_mode(void) {
+  uint64_t refused_total = 0, cases = 0;
+  for (int ki = 0; ki < 8; ki++) for (int kind = 0; kind < NHKIND; kind++) {     /* fewest failures first */
+    if (R_on && ((R_kind >= 0 && kind != R_kind) || (R_hk >= 0 && HK[ki] != R_hk))) continue;
+    if (HK[ki] == 0 && kind > 0) continue;                 /* no failures: one case */
+    struct hcase hc = { kind, HK[ki] };
+    vf_watchdog(120);
+    vf_set_cur("history kind=%d k=%d | %d caught %s failures, then the small grid", kind, HK[ki], HK[ki], HKIND[kind]);
+    if (pipe(hpipe) != 0) { perror("h_fmt: pipe"); _exit(2); }
+    struct vf_child ch = vf_fork_run(history_child, &hc, 60);
+    close(hpipe[1]);
+    static char line[4096];
+    ssize_t n = 0, r;
+    while ((r = read(hpipe[0], line + n, sizeof line - 1 - n)) > 0) n += r;
+    line[n > 0 ? n : 0] = 0;
+    close(hpipe[0]);
+    cases++;
+    vf.evaluations++;
+    char lab[200];
+    if (strncmp(line, "OK\t", 3) == 0 && ch.exited && ch.status == 0) {
+      unsigned long long ex = 0, rf = 0; sscanf(line + 3, "%llu\t%llu", &ex, &rf);
+      vf.executions += ex; refused_total += rf; vf.evaluations += NHFMT * 4;   /* comparisons with the first time */
+      if (count_nt && rf > 0) vf.nontrivial++;
+      if (rf != (unsigned long long)HK[ki]) vf_note("history kind=%d k=%d: only %llu of the %d ill-formed calls were refused with an exception", kind, HK[ki], rf, HK[ki]);
+      if (vf_want_sample()) vf_sample("%d caught %s failures (%llu raised), then %d well-formed formattings identical to the first time", HK[ki], HKIND[kind], rf, NHFMT * 4);
+    } else if (strncmp(line, "V\t", 2) == 0) {
+      char* l2 = line + 2; char* tab = strchr(l2, '\t');
+      if (tab) { *tab = 0; char* nl = strchr(tab + 1, '\n'); if (nl) *nl = 0; vf_violation(l2, NULL, "%s", tab + 1); }
+    } else {
+      snprintf(lab, sizeof lab, "history/after-%s/k=%d/%s", HKIND[kind], HK[ki], ch.signaled ? (ch.timed_out ? "hang" : "crash") : "ended-without-result");
+      vf_violation(lab, NULL, "the case ended without a result (exit %d, signal %d)", ch.status, ch.sig);
+    }
+  }
+  vf_extra("history_cases", "%" PRIu64, cases);
+  vf_extra("history_refused_formattings", "%" PRIu64, refused_total);
+}
+
 /* ---- main ---------------------------------------------------------------------------------- */
 
 static void parse_replay(const char* r) {
@@ -1275,6 +1510,18 @@ static void parse_replay(const char* r) {
   if ((p = strstr(r, " seq="))) R_seq = atoi(p + 5);
   if ((p = strstr(r, " style="))) R_style = atoi(p + 7);
   if ((p = strstr(r, " rot="))) R_rot = atoi(p + 5);
+  if (strncmp(r, "reentrant", 9) == 0) {
+    if ((p = strstr(r, " a="))) R_a = atoi(p + 3);
+    if ((p = strstr(r, " b="))) R_b = atoi(p + 3);
+    if ((p = strstr(r, " obj="))) R_obj = atoi(p + 5);
+    return;
+  }
+  if (strncmp(r, "history", 7) == 0) {
+    if ((p = strstr(r, " kind="))) R_kind = atoi(p + 6);
+    if ((p = strstr(r, " k="))) R_hk = atoi(p + 3);
+    R_k = -1;
+    return;
+  }
   if (strncmp(r, "repeat", 6) == 0 || strncmp(r, "recycle", 7) == 0) return;
   if (strncmp(r, "ladder", 6) == 0) return;
   if ((p = strstr(r, "h="))) R_h = atoi(p + 2);
@@ -1318,6 +1565,8 @@ int main(int argc, char** argv) {
     else if (strncmp(vf.replay, "ladder", 6) == 0) mode = "ladder";
     else if (strncmp(vf.replay, "repeat", 6) == 0) mode = "repeat";
     else if (strncmp(vf.replay, "recycle", 7) == 0) mode = "recycle";
+    else if (strncmp(vf.replay, "reentrant", 9) == 0) mode = "reentrant";
+    else if (strncmp(vf.replay, "history", 7) == 0) mode = "history";
     else if (R_v >= 1000) { mode = "show"; R_h = R_v - 1000; R_v = -1; }
     else mode = "grid";
   }
@@ -1326,6 +1575,11 @@ int main(int argc, char** argv) {
     ladder_mode();
   } else if (strcmp(mode, "repeat") == 0) {
     repeat_mode();
+  } else if (strcmp(mode, "reentrant") == 0) {
+    reentrant_mode();
+  } else if (strcmp(mode, "history") == 0) {
+    vf.phase = "history";
+    history_mode();
   } else if (strcmp(mode, "recycle") == 0) {
     vf.phase = "recycle";
     recycle_mode();
